@@ -150,27 +150,45 @@ def _parse_splits(s):
     if s == '[]': return []
     return [_parse_split('S(' + x) for x in s[1:-1].split('S(')[1:]]
 
-def check_history(d, ops, clock, log):
-    """d: None | int (scaled); log: per-call canonical strings.  Returns None or a message.
-    A tiny reference: the state, the readings taken by the last (re)start and by the last stop, and the splits
-    returned since — all computed from the call log alone."""
-    state = None            # None | 'R' | 'P'
-    start_r, stop_r = [], []
-    splits = []             # (elapsed, length) of the Split objects returned since the last (re)start
-    pos = 0
-    mono = True
-    prev_snap = 'N,None,None,[],%s' % ('None' if d is None else d)
-    for i, (tok, entry) in enumerate(zip(ops, log)):
-        where = 'call %d (%s)' % (i + 1, tok)
+class Ref:
+    """A tiny reference computed from the call log alone: the state, the readings taken by the last (re)start and
+    by the last stop, and the splits returned since.  feed() checks one call against the property statement."""
+    __slots__ = ('d', 'state', 'start_r', 'stop_r', 'splits', 'pos', 'mono', 'prev_snap', 'n')
+
+    def __init__(self, d):
+        self.d = d                  # None | scaled integer
+        self.state = None           # None | 'R' | 'P'
+        self.start_r, self.stop_r = (), ()
+        self.splits = ()            # (elapsed, length) of the Split objects returned since the last (re)start
+        self.pos = 0                # clock readings consumed so far
+        self.mono = True            # ... and they never decreased
+        self.prev_snap = 'N,None,None,[],%s' % ('None' if d is None else d)
+        self.n = 0
+
+    def copy(self):
+        r = Ref.__new__(Ref)
+        for k in Ref.__slots__: setattr(r, k, getattr(self, k))
+        return r
+
+    def key(self):
+        return (self.state, self.start_r, self.stop_r, self.splits, self.pos, self.mono, self.prev_snap)
+
+    def feed(self, clock, tok, entry):
+        d, state = self.d, self.state
+        self.n += 1
+        where = 'call %d (%s)' % (self.n, tok)
         try:
             res, ticks, snap = entry.split(';')
             ticks = int(ticks)
         except ValueError:
             return '%s: unreadable outcome %r' % (where, entry)
-        consumed = clock[pos:pos + ticks]
+        pos = self.pos
+        consumed = tuple(clock[pos:pos + ticks])
         for j in range(max(pos, 1), pos + ticks):
-            if clock[j] < clock[j - 1]: mono = False
-        pos += ticks
+            if clock[j] < clock[j - 1]: self.mono = False
+        self.pos = pos + ticks
+        mono = self.mono
+        start_r, stop_r, splits = self.start_r, self.stop_r, self.splits
         name = tok[:2]
         arg = tok.split(':', 1)[1] if ':' in tok else None
         # ---- legality table
@@ -183,22 +201,15 @@ def check_history(d, ops, clock, log):
         else: return '%s: unknown call' % where
         if not legal:
             if res != 'EXN:RuntimeError': return '%s is illegal in state %s but gave %s instead of RuntimeError' % (where, state, res)
-            if snap != prev_snap: return '%s is illegal in state %s and changed the watch: %s -> %s' % (where, state, prev_snap, snap)
-            continue
+            if snap != self.prev_snap: return '%s is illegal in state %s and changed the watch: %s -> %s' % (where, state, self.prev_snap, snap)
+            return None
         if res.startswith('EXN:'): return '%s is legal in state %s but raised %s' % (where, state, res[4:])
         if res.startswith('OTHER') or 'FLOAT:' in res: return '%s returned %s' % (where, res)
         # ---- elapsed at this call, as the property defines it
         def elapsed_candidates():
-            """list of admissible elapsed values (None = any non-negative value: the clock went backwards)"""
-            if state == 'R':
-                ends = consumed
-            else:
-                ends = stop_r
-            c = []
-            for s in start_r:
-                for n in ends:
-                    c.append(n - s if n - s >= 0 else None)
-            return c
+            """admissible elapsed values (None = any non-negative value: the clock went backwards)"""
+            ends = consumed if state == 'R' else stop_r
+            return [(n - s0 if n - s0 >= 0 else None) for s0 in start_r for n in ends]
         def admissible(v, f):
             """v is f(e) for an admissible elapsed value e"""
             cs = elapsed_candidates()
@@ -222,7 +233,7 @@ def check_history(d, ops, clock, log):
                 cs = [e for e in elapsed_candidates() if e is not None]
                 if any(e > m for e in cs) and 0 <= v <= max(0, m): ok = True
             if not ok: return '%s: elapsed %d is not the clock distance (start readings %s, %s readings %s)' % (
-                where, v, start_r, 'now' if state == 'R' else 'stop', consumed if state == 'R' else stop_r)
+                where, v, list(start_r), 'now' if state == 'R' else 'stop', list(consumed if state == 'R' else stop_r))
         elif name == 'lo':
             if d is None:
                 if res != 'None': return '%s: leftover(return_none=True) without duration returned %s' % (where, res)
@@ -232,56 +243,63 @@ def check_history(d, ops, clock, log):
                 if not consumed: return '%s: leftover did not read the clock' % where
                 ok = admissible(v, lambda e: max(0, d - e))
                 if ok == 'any': ok = 0 <= v <= d
-                if not ok: return '%s: leftover %d is not max(0, duration %d - elapsed) (start %s, now %s)' % (where, v, d, start_r, consumed)
+                if not ok: return '%s: leftover %d is not max(0, duration %d - elapsed) (start %s, now %s)' % (where, v, d, list(start_r), list(consumed))
         elif name == 'ex':
             if res not in ('True', 'False'): return '%s returned %s' % (where, res)
             if d is not None:
                 if state == 'R' and not consumed: return '%s: expired while running did not read the clock' % where
                 ok = admissible(res, lambda e: 'True' if e > d else 'False')
-                if ok == 'any': ok = True
                 if not ok: return '%s: expired is %s but elapsed > duration %d is not (start %s, end %s)' % (
-                    where, res, d, start_r, consumed if state == 'R' else stop_r)
+                    where, res, d, list(start_r), list(consumed if state == 'R' else stop_r))
         elif name == 'sl':
             try: e, l = _parse_split(res)
             except Exception: return '%s returned %s' % (where, res)
             if e < 0: return '%s: split elapsed is negative' % where
             if not consumed: return '%s: split did not read the clock' % where
             ok = admissible(e, lambda x: x)
-            if not ok: return '%s: split elapsed %d is not the clock distance (start %s, now %s)' % (where, e, start_r, consumed)
+            if not ok: return '%s: split elapsed %d is not the clock distance (start %s, now %s)' % (where, e, list(start_r), list(consumed))
             if mono:
                 if splits and e < splits[-1][0]: return '%s: split elapsed decreased %d -> %d under a monotonic clock' % (where, splits[-1][0], e)
                 want = e - splits[-1][0] if splits else e
                 if l != want: return '%s: split length %d is not the difference to the previous split (%d)' % (where, l, want)
-            splits = splits + [(e, l)]
+            splits = splits + ((e, l),)
         elif name in ('hs', 'hp'):
             want = (state == 'R') if name == 'hs' else (state == 'P')
             if res != str(want): return '%s returned %s in state %s' % (where, res, state)
         elif name == 'ss':
             try: got = _parse_splits(res)
             except Exception: return '%s returned %s' % (where, res)
-            if got != splits: return '%s: splits are %s, the splits taken since the last (re)start are %s' % (where, got, splits)
+            if got != list(splits): return '%s: splits are %s, the splits taken since the last (re)start are %s' % (where, got, list(splits))
         # ---- transitions
         if name in ('st', 'en'):
             if state != 'R':
                 if not consumed: return '%s: start did not read the clock' % where
-                state, start_r, stop_r, splits = 'R', consumed, [], []
+                state, start_r, stop_r, splits = 'R', consumed, (), ()
         elif name == 'rt':
             if not consumed: return '%s: restart did not read the clock' % where
-            state, start_r, stop_r, splits = 'R', consumed, [], []
+            state, start_r, stop_r, splits = 'R', consumed, (), ()
         elif name in ('sp', 'xt'):
             if state == 'R':
                 if not consumed: return '%s: stop did not read the clock' % where
                 state, stop_r = 'P', consumed
         elif name == 'rs':
             state = 'R'
+        self.state, self.start_r, self.stop_r, self.splits = state, start_r, stop_r, splits
         # ---- the watch is in the state the state machine says, holding the splits taken since the last (re)start
-        parts = snap.split(',')
-        tag = parts[0]
+        tag = snap.split(',', 1)[0]
         if tag != (state or 'N'): return '%s: the watch is in state %s, the state machine says %s' % (where, tag, state or 'N')
         try: held = _parse_splits(snap[snap.index('['):snap.rindex(']') + 1])
         except Exception: return '%s: unreadable splits in %s' % (where, snap)
-        if held != splits: return '%s: the watch holds splits %s, expected %s' % (where, held, splits)
-        prev_snap = snap
+        if held != list(splits): return '%s: the watch holds splits %s, expected %s' % (where, held, list(splits))
+        self.prev_snap = snap
+        return None
+
+def check_history(d, ops, clock, log):
+    """d: None | int (scaled); log: per-call canonical strings.  Returns None or a message."""
+    ref = Ref(d)
+    for tok, entry in zip(ops, log):
+        msg = ref.feed(clock, tok, entry)
+        if msg: return msg
     return None
 
 def oracle(c, io):
@@ -369,6 +387,61 @@ def gen_cases(rng, tier):
     for _ in range(100 if tier == 'quick' else 2000):
         yield rand_case(rng, 400)
 
+FULL_ALPHABET = MUTATORS + OBSERVERS + ['el:N', 'lo:F']
+
+def explore(tu, d, clock, depth, alphabet=FULL_ALPHABET):
+    """Every call sequence of length <= depth over the alphabet, checked against the property (Ref), by exhaustive
+    exploration of the configuration graph: two histories that leave the object with the same __dict__, the clock at the
+    same position and the reference in the same state have the same futures, so one representative is continued.
+    Returns (failing path | None, message | None, configurations visited, sequences covered)."""
+    import copy
+    pos = [0]
+    readings = [float(c) for c in clock]
+    def fake_now():
+        i = pos[0]; pos[0] = i + 1
+        return readings[i]
+    saved = tu.now
+    tu.now = fake_now
+    try:
+        sw0 = tu.StopWatch() if d == 'D' else tu.StopWatch(d)
+        dd = None if d in (None, 'D') else d
+        level = {0: (sw0, 0, Ref(dd), [])}
+        visited, covered, width = 1, 0, 1
+        for n in range(depth):
+            nxt = {}
+            width *= len(alphabet)
+            covered += width
+            for sw, p0, ref, path in level.values():
+                for tok in alphabet:
+                    sw2 = copy.copy(sw)
+                    pos[0] = p0
+                    try:
+                        r = _value(tu, sw2, _call(sw2, tok, 1), 1)
+                    except Exception as e:
+                        r = 'EXN:' + type(e).__name__
+                    entry = '%s;%d;%s' % (r, pos[0] - p0, _snapshot(sw2, 1))
+                    ref2 = ref.copy()
+                    msg = ref2.feed(clock, tok, entry)
+                    if msg: return path + [tok], msg, visited, covered
+                    key = (repr(sorted(sw2.__dict__.items(), key=lambda kv: kv[0])), pos[0], ref2.key())
+                    if key not in nxt: nxt[key] = (sw2, pos[0], ref2, path + [tok])
+            level = nxt
+            visited += len(level)
+        return None, None, visited, covered
+    finally:
+        tu.now = saved
+
+def extra_checks(rng, tier):
+    tu = _tu()
+    depth = 6 if tier == 'quick' else 10
+    for d in DURS + ['D']:
+        for pname, pat in PATTERNS.items():
+            clock = clock_of(pat, 2 * depth + 2)
+            path, msg, visited, covered = explore(tu, d, clock, depth)
+            case = {'op': 'run', 'scale': 1, 'durs': [d], 'ops': path or [], 'clocks': [clock]}
+            yield ('all-sequences-upto-%d:%s' % (depth, pname), case,
+                   None if msg is None else 'duration %r, clock %s: %s' % (d, pname, msg))
+
 def classify(c, io):
     if c['op'] == 'last': return 'exhaustive:len%d' % len(c['ops'])
     clock = c['clocks'][0]
@@ -384,16 +457,20 @@ def search(rng, budget):
     for _ in range(budget):
         yield rand_case(rng, 30)
 
-RULE = ('every call sequence of length 1..4 (quick) / 1..5 (thorough) over the 12 state-touching calls {start, stop, resume, restart, '
-        'split, elapsed(), elapsed(2), leftover(), leftover(return_none=True), expired, __enter__, __exit__} x durations {None, 0, 3, 10^6} '
-        'x clocks {step 0, +1, +1000, backwards cycle +4,-6,+1}; thorough adds every sequence of length <= 6 by exhaustive exploration of the '
-        'configuration graph (extra check); random histories of length <= 40 and <= 400 over the full alphabet incl. has_started/has_stopped/'
-        'splits, maxima incl. negative ones, durations incl. default/None/negative/10^12, dyadic scales {1, 1/4, 1/1024}, monotonic, '
-        'constant, mixed and mostly-backwards clocks; distinct = distinct case JSON; trivial = empty history')
+RULE = ('correspondence + oracle: every call sequence of length 1..4 (quick) / 1..5 (thorough) over the 12 state-touching calls {start, stop, '
+        'resume, restart, split, elapsed(), elapsed(2), leftover(), leftover(return_none=True), expired, __enter__, __exit__} x durations '
+        '{None, 0, 3, 10^6} x clocks {step 0, +1, +1000, backwards cycle +4,-6,+1}; random histories of length <= 40 and <= 400 over the full '
+        'alphabet incl. has_started/has_stopped/splits, maxima incl. negative ones, durations incl. default/None/negative/10^12, dyadic '
+        'scales {1, 1/4, 1/1024}, monotonic, constant, mixed and mostly-backwards clocks.  Oracle only (extra check all-sequences-upto-n): '
+        'EVERY sequence of length <= 6 (quick) / <= 10 (thorough) over the full 17-token alphabet x durations {None, default, 0, 3, 10^6} x '
+        'the 4 clocks, by exhaustive exploration of the configuration graph (histories leaving the object with equal __dict__, clock '
+        'position and reference state are continued once).  distinct = distinct case JSON; trivial = empty history')
 TRUSTED = ['timeutils.now is replaced by a scripted clock (the property fixes the clock as an input); clock readings, durations and maxima are '
            'integer multiples of a power-of-two unit, so CPython float arithmetic on them is exact and is modelled by Z',
            'tools/gen/gen_C13.py: statement-level translator of class StopWatch (A-normal form, explicit state threading, state kept on raise)']
-ASSUMPTIONS = ['clock readings/durations/maxima are modelled as integers (Z): the harness only scripts integer multiples of 2^-k (k in {0,2,10}) '
+ASSUMPTIONS = ['all-sequences-upto-n explores configurations, not sequences: it relies on a StopWatch\'s behaviour being a function of its '
+               '__dict__ and of the clock position (no hidden state)',
+               'clock readings/durations/maxima are modelled as integers (Z): the harness only scripts integer multiples of 2^-k (k in {0,2,10}) '
                'below 2^53, for which float subtraction, max and comparison are exact; rounding of arbitrary floats is not modelled',
                'the oracle accepts, for a call that reads the clock more than once, any of the readings as "now" (restart reads it twice)',
                'thread-safety is out of scope (the class documents itself as not thread-safe)']
